@@ -423,7 +423,11 @@ def checker (model : Bool) : Checker where
       match mkState model container kind with
       | none => (.none, some s!"bad-op {op}")
       | some st' =>
-        if obs == "na" then (.skip, none)
+        if obs == "na" then
+          -- only the black-box stub of the hook prints `na`, and only for the unexported builtinMap wrapper;
+          -- a white-box (model-mode) run, or any other container, must never be skipped
+          if !model && container == "builtin" then (.skip, none)
+          else (.none, some s!"case not run (`na`) although {container} can be constructed{if model then " white-box" else ""}")
         else if resultTok obs ≠ "ok" then (.none, some s!"constructor failed: {obs}")
         else (st', checkNew st' obs)
     | _ =>
